@@ -1,12 +1,14 @@
 """C16 - at most one run of a DAG file is active at a time (DESIGN.md section 5, C16).
 
-Proofs: coq/Props/C16.v over coq/Sock/Model.v (the protocol between agents) and coq/Agent/Run.v.
+Proofs: coq/Props/C16.v over coq/Sock/Model.v (the protocol between agents, as repaired by a924e5c: probe..bind under an
+exclusive flock on the DAG definition file, the socket path removed once) and coq/Agent/Run.v.
 Runtime replay: harness/cmd/lock runs real `blackdagger start` / `retry` processes (binary built from the tree under check) on a
 marker-file DAG, each under strace (socket system calls with time stamps; a delay injected to widen a window), at chosen phases of the
 first run's life.  The interleaving a scenario realised is read off the time stamps, turned into a schedule of the model and replayed
 inside Coq: the model must predict who was refused, who failed to bind, who executed and who recorded a run.  Monitors (independent of
 the model) evaluate the property on what the processes did.  In-process agents (harness/cmd/agentrun, class `running`) add volume for
-the sequential clause.  The probe/bind race and the late unlink (F16a) are genuine defects: known findings, narrow classes."""
+the sequential clause and for the former racing window.  The probe/bind race and the late unlink (F16a) were genuine defects of the
+pinned tree (findings/C16-*.json), fixed by a924e5c: the same scenarios must now show mutual exclusion."""
 import itertools
 import json
 import os
@@ -15,7 +17,7 @@ import vlib
 from vlib import clist, cbool
 from props import agent_lib
 
-IDX = {"probe": 2, "unlink": 6, "bind": 7, "shutunlink": 11, "lateunlink": 14}
+IDX = {"lock": 2, "probe": 3, "unlink": 7, "bind": 8, "shutunlink": 13}   # index of the action in Sock/Model.v `program`
 MARGIN = 0.004     # seconds: observations closer than this to a boundary are not judged by the monitors
 CLUSTER = 0.0015   # seconds: socket calls of different processes closer than this may have happened in either order
 MAXCAND = 120
@@ -121,7 +123,8 @@ def monitors(s):
                 continue
             if sv[0] + MARGIN < lo(bp) and hi(bp) < sv[1] - MARGIN:
                 # b asked while a was serving: b must be refused silently
-                if klass(b) != 2 or executed(b) or recorded(s, b) or len(b["anchors"]) != 1 or b.get("hist_new", 0) > 0:
+                if (klass(b) != 2 or executed(b) or recorded(s, b) or b.get("hist_new", 0) > 0
+                        or any(x["act"] not in ("lock", "probe") for x in b["anchors"])):
                     out.append(("a %s issued while run %s was active (bound, not shut down) was not refused silently: exit %d, "
                                 "executed=%s, recorded=%s, new history entries=%d"
                                 % (b["kind"], a["tag"], b["code"], executed(b), recorded(s, b), b.get("hist_new", 0)), [a["i"], b["i"]]))
@@ -156,10 +159,10 @@ def events(s):
     ev = []
     for p in s["procs"]:
         for a in p["anchors"]:
-            ev.append((lo(a), p["i"], a["act"], hi(a)))
+            ev.append((lo(a), p["i"], a["act"], hi(a), a["ok"]))
         if p.get("exited"):
             last = max([hi(a) for a in p["anchors"]] + [p["launched"]])
-            ev.append((max(p["exited"], last + 1e-6), p["i"], "exit", max(p["exited"], last + 1e-6)))
+            ev.append((max(p["exited"], last + 1e-6), p["i"], "exit", max(p["exited"], last + 1e-6), True))
     ev.sort()
     return ev
 
@@ -205,20 +208,26 @@ def candidate_orders(ev, cluster=CLUSTER, maxcand=MAXCAND):
 
 
 def schedule(order, nprocs):
-    """model schedule items: (0,p) = p performs its next action, (2,p) = p runs to its end"""
+    """model schedule items: (0,p) = p performs its next action, (2,p) = p runs to its end.  Returns None when the processes made
+    a socket call the model does not have (a second removal of the path after the shutdown)."""
     pc = [0] * nprocs
     items = []
     done = set()
-    for (_, i, act, _hi) in order:
-        if act == "exit":     # the process is gone: whatever remained of its program has happened (or was cut off)
+    for (_, i, act, _hi, ok) in order:
+        if act == "exit":     # the process is gone: whatever remained of its program has happened
             items.append((2, i))
             done.add(i)
             continue
+        if act not in IDX:
+            return None
         k = IDX[act] - pc[i] + 1
         if k <= 0:
             k = 1
         items += [(0, i)] * k
         pc[i] = IDX[act] + 1
+        if act == "bind" and ok:   # the lock is released as soon as the socket listens
+            items.append((0, i))
+            pc[i] += 1
     for i in range(nprocs):
         if i not in done:
             items.append((2, i))
@@ -231,37 +240,42 @@ def coq_case(items, n, obs):
 
 
 def model_replay(ctx, scns, cluster=CLUSTER, maxcand=MAXCAND, tag="cases_c16"):
-    """returns for each scenario: (agrees, guarded, index of accepted candidate, number of candidates).  Scenarios the model
-    does not reproduce with the tight ordering tolerance are tried once more with a wide one (loaded machine: the time
-    stamp of a call and its effect can be milliseconds apart)."""
+    """returns for each scenario: agrees?, code (1 not an execution of the model, 2 fates differ, 8 a call the model does not have),
+    number of orderings tried.  Scenarios the model does not reproduce with the tight ordering tolerance are tried once more with
+    a wide one (loaded machine: the time stamp of a call and its effect can be milliseconds apart)."""
     cases, owner = [], []
+    foreign = set()
     for si, s in enumerate(scns):
         n = len(s["procs"])
         obs = [(klass(p), executed(p), recorded(s, p)) for p in s["procs"]]
         for ci, order in enumerate(candidate_orders(events(s), cluster, maxcand)):
-            cases.append(coq_case(schedule(order, n), n, obs))
+            items = schedule(order, n)
+            if items is None:
+                foreign.add(si)
+                break
+            cases.append(coq_case(items, n, obs))
             owner.append((si, ci))
-    txt = ("From Coq Require Import List Bool Arith.\nImport ListNotations.\nFrom BD.Sock Require Import Model Check.\n"
-           "Definition cases : list rcase := [\n%s\n].\n"
-           "Definition M := Eval vm_compute in mismatches cases.\nPrint M.\n"
-           "Definition U := Eval vm_compute in unguarded cases.\nPrint U.\n") % ";\n".join(cases)
-    rc, out, dt = vlib.coq_eval(ctx.scratch, tag, txt)
-    bad = vlib.coq_list_result(out, "M") if rc == 0 else None
-    ung = vlib.coq_list_result(out, "U") if rc == 0 else None
-    if bad is None or ung is None:
-        ctx.fail("correspondence", "the protocol model could not be evaluated on the replay cases (coqc failed)", {"log": out[-1500:]})
-        return None
+    bad = []
+    if cases:
+        txt = ("From Coq Require Import List Bool Arith.\nImport ListNotations.\nFrom BD.Sock Require Import Model Check.\n"
+               "Definition cases : list rcase := [\n%s\n].\n"
+               "Definition M := Eval vm_compute in mismatches cases.\nPrint M.\n") % ";\n".join(cases)
+        rc, out, dt = vlib.coq_eval(ctx.scratch, tag, txt)
+        bad = vlib.coq_list_result(out, "M") if rc == 0 else None
+        if bad is None:
+            ctx.fail("correspondence", "the protocol model could not be evaluated on the replay cases (coqc failed)", {"log": out[-1500:]})
+            return None
     badset = {k: code for (k, code) in bad}
-    ungset = set(ung)
     res = []
     for si, s in enumerate(scns):
+        if si in foreign:
+            res.append({"agrees": False, "code": 8, "candidates": 0})
+            continue
         mine = [k for k, (a, _) in enumerate(owner) if a == si]
         ok = [k for k in mine if k not in badset]
-        pick = ok[0] if ok else mine[0]
-        res.append({"agrees": bool(ok), "guarded": pick not in ungset, "candidate": owner[pick][1], "candidates": len(mine),
-                    "code": badset.get(mine[0], 0)})
+        res.append({"agrees": bool(ok), "candidates": len(mine), "code": badset.get(mine[0], 0) if mine else 0})
     if cluster == CLUSTER:
-        again = [k for k, r in enumerate(res) if not r["agrees"]]
+        again = [k for k, r in enumerate(res) if not r["agrees"] and r["code"] != 8]
         if again:
             wide = model_replay(ctx, [scns[k] for k in again], cluster=0.03, maxcand=400, tag=tag + "_wide")
             if wide:
@@ -317,18 +331,16 @@ def run(ctx, names=None):
     for k, s in enumerate(scns):
         rc_ = race_class(s)
         classes[rc_] = classes.get(rc_, 0) + 1
-        r = rep[k] if rep else {"agrees": True, "guarded": None, "candidates": 0, "candidate": 0, "code": 0}
-        cls = {"class": rc_, "guarded": r["guarded"]}
+        r = rep[k] if rep else {"agrees": True, "candidates": 0, "code": 0}
+        cls = {"class": rc_}
         for what, who in monitors(s):
             nviol += 1
             ctx.fail("monitor", what, summary(s), cls=cls)
         if rep and not r["agrees"]:
-            ctx.fail("correspondence", "the protocol model does not reproduce what the processes did in scenario %s (code %d; %d orderings of "
-                     "near-simultaneous calls tried)" % (s["name"], r["code"], r["candidates"]), summary(s), cls={"class": "model-" + rc_})
-        # the model's own classification must agree with the time stamps: racing <=> outside the premise of the _partial theorem
-        if rep and r["agrees"] and rc_ == "none" and not r["guarded"]:
-            ctx.fail("correspondence", "scenario %s: race class %s from the time stamps, but the model's guard says guarded=%s"
-                     % (s["name"], rc_, r["guarded"]), summary(s), cls={"class": "guard-" + rc_})
+            why = {1: "the interleaving is not an execution of the model (e.g. the lock was not exclusive)", 2: "the processes' fates differ",
+                   8: "a process removed the socket path again after its shutdown - the model has no such action"}.get(r["code"], "code %d" % r["code"])
+            ctx.fail("correspondence", "the protocol model does not reproduce what the processes did in scenario %s: %s (%d orderings of "
+                     "near-simultaneous calls tried)" % (s["name"], why, r["candidates"]), summary(s), cls={"class": "model-" + rc_})
     # in-process agents: second start / retry while the first is active (sequential clause, volume)
     acases = None
     if names is None:
@@ -355,12 +367,13 @@ def run(ctx, names=None):
 
 
 def agent_race(ctx, cases):
-    """in-process, deterministic: agent A held after its probe, B binds and runs, A released (removes B's socket, binds, runs), then a
-    third start C.  Schedule of the model by construction; fates compared; the double execution is the known finding."""
+    """in-process, deterministic: agent A is held inside its locked section (after its probe, before its history open); B is started
+    meanwhile and must wait; A is released, binds and stays inside its first step; B and a third start C must then be refused
+    silently.  The schedule of the model is known by construction; the agents' fates are compared with it."""
     if not cases:
         return
     fate = {"none": 1, "step": 1, "running": 2, "socket": 3}
-    items = [(0, 0)] * 4 + [(0, 1)] * 9 + [(2, 0), (2, 2), (2, 1)]
+    items = [(0, 0)] * 5 + [(0, 1)] * 2 + [(0, 0)] * 6 + [(0, 1)] * 2 + [(0, 2)] * 4 + [(2, 0)]
     txt_cases = []
     for c in cases:
         runs = [c] + c.get("others", [])
@@ -368,25 +381,30 @@ def agent_race(ctx, cases):
         txt_cases.append(coq_case(items, len(runs), obs))
     txt = ("From Coq Require Import List Bool Arith.\nImport ListNotations.\nFrom BD.Sock Require Import Model Check.\n"
            "Definition cases : list rcase := [\n%s\n].\n"
-           "Definition M := Eval vm_compute in mismatches cases.\nPrint M.\n"
-           "Definition U := Eval vm_compute in unguarded cases.\nPrint U.\n") % ";\n".join(txt_cases)
+           "Definition M := Eval vm_compute in mismatches cases.\nPrint M.\n") % ";\n".join(txt_cases)
     rc, out, dt = vlib.coq_eval(ctx.scratch, "cases_c16_race", txt)
     bad = vlib.coq_list_result(out, "M") if rc == 0 else None
-    ung = vlib.coq_list_result(out, "U") if rc == 0 else None
-    if bad is None or ung is None:
+    if bad is None:
         ctx.fail("correspondence", "the protocol model could not be evaluated on the in-process race cases", {"log": out[-1500:]})
         return
-    for (k, code) in bad:
-        ctx.fail("correspondence", "in-process race: the protocol model does not predict the agents' fates (code %d)" % code, cases[k],
-                 cls={"class": "model-agent-race"})
-    for k, c in enumerate(cases):
+    for c in cases:
         runs = [c] + c.get("others", [])
-        n_exec = len([o for o in runs[:2] if o["exec"]])
-        if n_exec >= 2:   # A and B were active at the same time (B was held inside its first step while A ran)
-            ctx.fail("monitor", "in-process: two agents of one DAG file executed steps at the same time (A held after its probe, B started "
-                     "inside the window); afterwards the endpoint answered %r although B was still active, and a third start %s"
-                     % (c["status_after"], "was admitted" if len(runs) > 2 and runs[2]["exec"] else "was refused"), c,
-                     cls={"class": "probe-in-window", "guarded": k not in set(ung)})
+        others = runs[1:]
+        what = None
+        if any(o["exec"] for o in others):
+            what = "two agents of one DAG file executed steps at the same time (A held after its probe, B started inside the window)"
+        elif any(o["err_kind"] != "running" or [x for x in o["log"] if x != "probe"] for o in others):
+            what = "a start issued while A was inside its probe-and-bind section / active was not refused silently: %s" % [
+                (o["err_kind"], o["log"]) for o in others]
+        elif c["hist_during"] != 1 or c["status_before"] != "running" or c["status_after"] != "running":
+            what = "A was disturbed: %d history files, endpoint answered %r / %r" % (c["hist_during"], c["status_before"], c["status_after"])
+        elif c["err_kind"] != "none" or len(c["hist_files"]) != 1:
+            what = "A did not complete normally: %r, history %s" % (c["err"], c["hist_files"])
+        if what:
+            ctx.fail("monitor", "in-process: " + what, c, cls={"class": "agent-race"})
+    for (k, code) in bad:
+        ctx.fail("correspondence", "in-process race: the protocol model does not predict the agents' fates (code %d; B waited for the lock: %s)"
+                 % (code, cases[k].get("b_waited")), cases[k], cls={"class": "model-agent-race"})
 
 
 def fill_evidence(ctx, scns, rep, classes, acases):
@@ -406,9 +424,12 @@ def fill_evidence(ctx, scns, rep, classes, acases):
     ctx.cov["scenarios"] = {"%d:%s" % (k, s["name"]): {"procs": len(s["procs"]), "race_class": race_class(s),
                                         "fates": [klass(p) for p in s["procs"]],
                                         "model_agrees": rep[k]["agrees"] if rep else None,
-                                        "guarded": rep[k]["guarded"] if rep else None,
                                         "orderings_tried": rep[k]["candidates"] if rep else None} for k, s in enumerate(scns)}
-    ctx.cov["race_classes"] = classes
+    ctx.cov["timing_classes"] = classes
+    ctx.cov["lock_waits_observed"] = len([1 for s in scns for p in s["procs"] for a in s["procs"]
+                                          if a is not p and anchor(p, "lock") and anchor(a, "lock") and anchor(a, "bind")
+                                          and p["launched"] < hi(anchor(a, "bind")) and lo(anchor(a, "lock")) < lo(anchor(p, "lock"))
+                                          and lo(anchor(p, "lock")) > p["launched"] + 0.3])
     ctx.cov["second_attempts_during_active_run"] = len([1 for s in scns for b in s["procs"] for a in s["procs"]
                                                        if a is not b and serving(a) and anchor(b, "probe")
                                                        and serving(a)[0] < anchor(b, "probe")["t"] < serving(a)[1]])
@@ -419,12 +440,13 @@ def fill_evidence(ctx, scns, rep, classes, acases):
     ctx.cov["trusted_base"] += [
         "unix socket semantics as modelled: bind fails on an existing path, unlink removes whatever is at the path, a listener survives the "
         "unlink of its path but is unreachable, connect to a path nobody listens on is refused (DESIGN.md Appendix B)",
+        "flock(LOCK_EX) semantics as modelled: one holder at a time, granted when the call returns, released by close",
         "strace -ttt time stamps order the socket calls of different processes; calls closer than 1.5 ms are tried in both orders",
         "granularity: each model action is one or a few system calls; socket liveness (who answers) is runtime behaviour observed by the replay"]
     ctx.assumptions = ["graph accepted, DAG preconditions met, not a dry run (the other cases end before the probe: Agent/Run.v)",
                        "the history store can be opened",
-                       "C16_mutual_exclusion_partial premise: no probe while another process is between its probe and its bind, or between its "
-                       "shutdown unlink and its exit"]
+                       "flock on the DAG definition file is exclusive and released at close (modelled primitive); a DAG without a readable "
+                       "definition file is not locked by the code (not reachable from start/retry); process death is not modelled"]
     ctx.level = "proof"
 
 
